@@ -585,7 +585,10 @@ class DeconstructedSerialization(BaseSerialization):
         cls_path, args, kwargs = cls._deconstruct_object(value)
         module_path, cls_name = cls_path.rsplit('.', 1)
 
-        if cls_path.startswith('django.db.models'):
+        if cls_path.startswith('django.db.models.functions'):
+            # Database functions are not exported by django.db.models.
+            cls_name = 'models.functions.%s' % cls_name
+        elif cls_path.startswith('django.db.models'):
             cls_name = 'models.%s' % cls_name
 
         all_args = []
@@ -803,6 +806,10 @@ class QSerialization(DeconstructedSerialization):
         Q.AND: ' & ',
     }
 
+    if hasattr(Q, 'XOR'):
+        # Django >= 4.1
+        child_separators[Q.XOR] = ' ^ '
+
     @classmethod
     def serialize_to_signature(cls, q):
         """Serialize a Q object to JSON-compatible signature data.
@@ -870,8 +877,12 @@ class QSerialization(DeconstructedSerialization):
         elif num_children == 1:
             child = value.children[0]
 
-            result.append('models.Q(%s=%s)' % (child[0],
-                                               serialize_to_python(child[1])))
+            if isinstance(child, Q):
+                # A Q object nested as the only child of another.
+                result.append('models.Q(%s)' % serialize_to_python(child))
+            else:
+                result.append('models.Q(%s=%s)'
+                              % (child[0], serialize_to_python(child[1])))
         else:
             children = []
 
